@@ -922,7 +922,7 @@ private theorem VSet.mem_insert_toList (s : VSet) (v x : Nat) :
   · rw [if_neg hc]; simp
 
 /-- [S] membership in `extend` (insertion of the new vertices that are not yet present) -/
-theorem VSet.mem_extend (s : VSet) (vs : List Nat) (x : Nat) :
+theorem VSet.mem_extend_decomp (s : VSet) (vs : List Nat) (x : Nat) :
     x ∈ (VSet.extend s vs).toList ↔ x ∈ s.toList ∨ x ∈ vs := by
   unfold VSet.extend
   induction vs generalizing s with
@@ -971,7 +971,7 @@ theorem get_clique_spec (t : SuperNodeTree) (i : Nat) (c : VSet)
   refine ⟨p, s1, s2, e1, getE_ok_inv _ _ _ _ h1, getE_ok_inv _ _ _ _ h2, fun v => ?_⟩
   have : c = s1.extend s2.toList := by
     simp [pure, Except.pure] at h; exact h.symm
-  rw [this, VSet.mem_extend]
+  rw [this, VSet.mem_extend_decomp]
 
 
 example : ∃ p s1 s2, (#[0] : Array Nat)[0]? = some p ∧ (#[#[0, 1]] : Array VSet)[p]? = some s1 ∧
